@@ -73,6 +73,7 @@ type FuncSpec struct {
 	CallSites map[string]string // call site -> overriding contract key
 	CommitMayFail bool
 	Preserves []Clause
+	Async     string
 	StrKeysPairwise bool
 	Invokes   string
 }
@@ -199,7 +200,7 @@ func parseClause(text, file string, line int) Clause {
 var keywords = map[string]bool{"spec": true, "func": true, "trusted": true, "lemma": true, "requires": true,
 	"ensures": true, "ensures_on_panic": true, "may_panic": true, "modifies": true, "loop": true, "decreases": true,
 	"=": true, "witness": true, "ghost": true, "use": true, "assert": true, "replay_domain": true, "props": true,
-	"uninterpreted": true, "nobody": true, "callback": true, "end": true, "trigger": true, "ghostvar": true, "pred": true, "dead": true, "native": true, "callsite": true, "monitor": true, "lock": true, "cond": true, "protects": true, "owns": true, "invariant": true, "rely": true, "holds": true, "shared": true, "thread": true, "opaque": true, "anyargs": true, "applies": true, "preserves": true, "invokes": true, "strkeys": true}
+	"uninterpreted": true, "nobody": true, "callback": true, "end": true, "trigger": true, "ghostvar": true, "pred": true, "dead": true, "native": true, "callsite": true, "monitor": true, "lock": true, "cond": true, "protects": true, "owns": true, "invariant": true, "rely": true, "holds": true, "shared": true, "thread": true, "opaque": true, "anyargs": true, "applies": true, "preserves": true, "invokes": true, "strkeys": true, "async": true}
 
 // LoadSpecs reads every zz_contracts_verif.go below root plus extra files.
 func LoadSpecs(files []string) *Specs {
@@ -442,6 +443,9 @@ func (sp *Specs) loadFile(file string) {
 		case "strkeys":
 			// strkeys pairwise: relate the identities of all computed map/store keys of this function by content
 			mustF(curF, base, rl.line).StrKeysPairwise = true
+		case "async":
+			// async <param>: the function value passed as <param> runs later, possibly on another goroutine
+			mustF(curF, base, rl.line).Async = strings.TrimSpace(rest)
 		case "invokes":
 			// invokes <param>: the function may call the closure passed as <param> any number of times
 			mustF(curF, base, rl.line).Invokes = strings.TrimSpace(rest)
